@@ -235,7 +235,7 @@ Qed.
 
 Lemma hinv_update : forall c st vh T osp olen, hinv st vh -> hinv (hupdate c st T osp olen) vh.
 Proof.
-  intros c st vh T osp olen [Hs Hl]. unfold hupdate. destruct (upd_cond c st T); [|split; auto].
+  intros c st vh T osp olen [Hs Hl]. unfold hupdate. destruct (upd_cond c st T && negb (osp =? 0)); [|split; auto].
   split; cbn [h_buf h_maxlen].
   - destruct (olen =? h_maxlen st); [exact Hs|apply suffix_lastn; exact Hs].
   - destruct (olen =? h_maxlen st) eqn:E; [assert (olen = h_maxlen st) by lia; subst; exact Hl|apply lastn_length].
@@ -372,7 +372,7 @@ Proof.
   - unfold hrecv. destruct (item_valid x); [|rewrite app_nil_r; exact H].
     intros Hsp. cbn [h_sp h_maxlen h_buf] in *. destruct (H Hsp) as [Hm Hb]. split; auto.
     unfold push. rewrite Hm, Hb. apply lastn_snoc_lastn.
-  - rewrite app_nil_r. unfold htick. cbn [fst]. unfold hupdate. destruct (upd_cond c st T); [|exact H].
+  - rewrite app_nil_r. unfold htick. cbn [fst]. unfold hupdate. destruct (upd_cond c st T && negb (osp =? 0)); [|exact H].
     intros Hsp. cbn in Hsp. discriminate.
 Qed.
 
